@@ -13,7 +13,7 @@ def exec_method(src, cls, meth, ax, fields, args, data_args=True, call_hook=None
     names = [a.arg for a in fn.args.args]
     env = {"self": ex.selfobj}
     for nm, x in zip(names[1:], args):
-        env[nm] = x if isinstance(x, (Num, Bool)) or not isinstance(x, xr.X) else Num(x, data=data_args, py=False)
+        env[nm] = x if isinstance(x, (Num, Bool)) or not isinstance(x, xr.X) else Num(x, data=data_args, py=False, alias=data_args)
     outs = ex.run(fn, env, pc=list(pre))
     return outs, ex, fn, module
 
